@@ -143,7 +143,17 @@ func ifaceMethodKey(t types.Type, m *types.Func) string {
 	return "iface." + m.Name()
 }
 
-func (g *Gen) callbackContract(v ssa.Value) *Contract { return nil }
+// callbackContract: the contract attached to a func-typed parameter of the
+// function under verification (//@ callback <param> ...).
+func (g *Gen) callbackContract(v ssa.Value) *Contract {
+	if g.C == nil || g.C.Callbacks == nil {
+		return nil
+	}
+	if p, ok := v.(*ssa.Parameter); ok {
+		return g.C.Callbacks[p.Name()]
+	}
+	return nil
+}
 
 func (g *Gen) staticCall(st *State, f *ssa.Function, args []Val, resTy types.Type, pos token.Pos) Val {
 	key := FuncKey(f)
@@ -248,12 +258,42 @@ func (g *Gen) applyContractX(st *State, c *Contract, key string, names []string,
 	case c.Modifies == nil || c.Modifies.Star:
 		g.havocAll(st, short)
 	default:
+		// every location of the modifies clause denotes a location of the pre-state
+		frozen := st.clone()
+		scPre := g.specCtxVars(frozen, frozen, vars)
+		scPre.calleeKey = key
 		for _, m := range c.Modifies.Mods {
-			if err := g.havocLoc(st, sc, m); err != nil {
+			if err := g.havocLoc(st, scPre, m); err != nil {
 				g.BindErrs = append(g.BindErrs, fmt.Sprintf("call %s: modifies %s: %v", short, ExprString(m), err))
 			}
 		}
 		g.bumpClock(st)
+	}
+	if c.Preserves != nil {
+		// listed locations keep their pre-call value whatever else the callee modifies
+		for _, m := range c.Preserves.Mods {
+			if call, ok := m.(*ECall); ok {
+				if id, ok := call.Fun.(*EIdent); ok && id.Name == "fields" && len(call.Args) == 1 {
+					ty, err := sc.typeByName(ExprString(call.Args[0]))
+					if err != nil {
+						g.BindErrs = append(g.BindErrs, fmt.Sprintf("call %s: preserves %s: %v", short, ExprString(m), err))
+						continue
+					}
+					for _, n := range g.uniOrder {
+						if compOfType(n, ty) {
+							st.Heap[n] = pre.Heap[n]
+						}
+					}
+					continue
+				}
+			}
+			a, ty, err := sc.addr(m)
+			if err != nil {
+				g.BindErrs = append(g.BindErrs, fmt.Sprintf("call %s: preserves %s: %v", short, ExprString(m), err))
+				continue
+			}
+			g.store(st, a, ty, g.load(pre, a, ty))
+		}
 	}
 	var res Val
 	if c.Pure && !c.NonDet {
@@ -290,6 +330,10 @@ func (g *Gen) applyContractX(st *State, c *Contract, key string, names []string,
 		res = buildVal(resTy, func(lf leaf) *Term { return App("vp_pure!"+short+lf.Path, lf.Sort, flat...) })
 		g.wfVal(st, res)
 	} else {
+		if c.Pure {
+			// a side-effect-free call may still allocate its result
+			g.bumpClock(st)
+		}
 		res = g.declare(st, "ret:"+short, resTy)
 	}
 	rn := resultNamesOf(sig, c)
@@ -312,6 +356,30 @@ func (g *Gen) applyContractX(st *State, c *Contract, key string, names []string,
 			continue
 		}
 		g.assumeAt(st, t)
+	}
+	// environmental assumptions the caller's contract attaches to this call site
+	if g.C != nil && len(g.C.CallAssumes) > 0 && !g.quiet {
+		ord := g.callOrd[short]
+		if g.callOrd == nil {
+			g.callOrd = map[string]int{}
+		}
+		g.callOrd[short] = ord + 1
+		for _, cl := range g.C.CallAssumes {
+			if cl.CallOrd != ord || !(short == cl.Callee || strings.HasSuffix(short, "."+cl.Callee) || strings.HasSuffix(short, "/"+cl.Callee)) {
+				continue
+			}
+			// evaluated like an ensures of the callee, in the caller's package scope
+			sc3 := g.specCtxVars(st, pre, vars)
+			sc3.calleeKey = key
+			t, err := sc3.boolTerm(cl.E)
+			if err != nil {
+				g.BindErrs = append(g.BindErrs, fmt.Sprintf("assume %q: %v", cl.Text, err))
+				continue
+			}
+			g.assumeAt(st, t)
+			g.Assumed["assume "+cl.Text+" because "+cl.Why] = true
+			g.usedCallAssumes[cl] = true
+		}
 	}
 	return res
 }
@@ -337,6 +405,19 @@ func (g *Gen) havocLoc(st *State, sc *SCtx, m Expr) error {
 				return err
 			}
 			return g.havocMap(st, v)
+		}
+		if id, ok := call.Fun.(*EIdent); ok && id.Name == "fields" && len(call.Args) == 1 {
+			// fields(T): any field of any object of struct type T (footprint by type)
+			ty, err := sc.typeByName(ExprString(call.Args[0]))
+			if err != nil {
+				return err
+			}
+			for _, n := range append([]string{}, g.uniOrder...) {
+				if compOfType(n, ty) {
+					g.heapSet(st, n, g.universe[n], g.fresh("hv:"+n, g.universe[n]))
+				}
+			}
+			return nil
 		}
 	}
 	a, ty, err := sc.addr(m)
@@ -399,6 +480,37 @@ func (g *Gen) ret(st *State, x *ssa.Return) {
 	if g.C.Modifies != nil && !g.C.Modifies.Star {
 		g.frameCheck(st, x.Pos())
 	}
+	if g.C.Preserves != nil {
+		scp := g.specCtxVars(g.entry, g.entry, nil)
+		scp.useParams = true
+		for _, m := range g.C.Preserves.Mods {
+			if call, ok := m.(*ECall); ok {
+				if id, ok := call.Fun.(*EIdent); ok && id.Name == "fields" && len(call.Args) == 1 {
+					ty, err := scp.typeByName(ExprString(call.Args[0]))
+					if err != nil {
+						g.BindErrs = append(g.BindErrs, fmt.Sprintf("preserves %s: %v", ExprString(m), err))
+						continue
+					}
+					for _, n := range g.uniOrder {
+						if compOfType(n, ty) && st.Heap[n] != g.entry.Heap[n] {
+							goal := g.unchangedOutside(n, st.Heap[n], g.entry.Heap[n], g.entry.Clk, nil, true)
+							g.obligeNamed(st, "preserves", g.frameOrd(n), "preserves: "+n+" unchanged", x.Pos(), goal)
+						}
+					}
+					continue
+				}
+			}
+			a, ty, err := scp.addr(m)
+			if err != nil {
+				g.BindErrs = append(g.BindErrs, fmt.Sprintf("preserves %s: %v", ExprString(m), err))
+				continue
+			}
+			eq := valEq(g.load(st, a, ty), g.load(g.entry, a, ty))
+			if eq != nil {
+				g.obligeNamed(st, "preserves", g.frameOrd("p:"+ExprString(m)), "preserves: "+ExprString(m)+" unchanged", x.Pos(), eq)
+			}
+		}
+	}
 }
 
 func (g *Gen) retValues(st *State, x *ssa.Return) []Val {
@@ -443,6 +555,19 @@ type allowedLoc struct {
 	ref *Term // object ref (O:) or array ref (E:)
 	lo  *Term
 	hi  *Term
+	any bool // every location of the component
+	sinceEntry bool // everything allocated since function entry (modifies fresh)
+}
+
+// compOfType: the component holds a field (or element field) of struct type t.
+func compOfType(comp string, t types.Type) bool {
+	ts := typeStr(t)
+	for _, pre := range []string{"O:" + ts, "E:" + ts} {
+		if comp == pre || strings.HasPrefix(comp, pre+".") || strings.HasPrefix(comp, pre+"#") {
+			return true
+		}
+	}
+	return false
 }
 
 // allowSets evaluates the entries of a modifies clause (in the given context)
@@ -450,6 +575,13 @@ type allowedLoc struct {
 func (g *Gen) allowSets(mods []Expr, sc *SCtx, what string) map[string][]allowedLoc {
 	allow := map[string][]allowedLoc{}
 	for _, m := range mods {
+		if id, ok := m.(*EIdent); ok && id.Name == "fresh" {
+			// objects allocated since function entry
+			for _, n := range g.uniOrder {
+				allow[n] = append(allow[n], allowedLoc{sinceEntry: true})
+			}
+			continue
+		}
 		if call, ok := m.(*ECall); ok {
 			if id, ok := call.Fun.(*EIdent); ok && id.Name == "elems" && len(call.Args) == 1 {
 				v, err := sc.eval(call.Args[0])
@@ -461,6 +593,19 @@ func (g *Gen) allowSets(mods []Expr, sc *SCtx, what string) map[string][]allowed
 				for _, lf := range leavesOf(et) {
 					name := g.compName(&Addr{Root: RElem, RootT: et}, lf)
 					allow[name] = append(allow[name], allowedLoc{ref: v.F[0].T, lo: v.F[1].T, hi: Add(v.F[1].T, v.F[3].T)})
+				}
+				continue
+			}
+			if id, ok := call.Fun.(*EIdent); ok && id.Name == "fields" && len(call.Args) == 1 {
+				ty, err := sc.typeByName(ExprString(call.Args[0]))
+				if err != nil {
+					g.BindErrs = append(g.BindErrs, fmt.Sprintf("%s %s: %v", what, ExprString(m), err))
+					continue
+				}
+				for _, n := range g.uniOrder {
+					if compOfType(n, ty) {
+						allow[n] = append(allow[n], allowedLoc{any: true})
+					}
 				}
 				continue
 			}
@@ -511,6 +656,19 @@ func (g *Gen) allowSets(mods []Expr, sc *SCtx, what string) map[string][]allowed
 // With skolem=true fresh constants stand for the location (a goal); otherwise the
 // statement is universally quantified (an assumption).
 func (g *Gen) unchangedOutside(n string, cur, base *Term, clk *Term, allow []allowedLoc, skolem bool) *Term {
+	var rest []allowedLoc
+	for _, a := range allow {
+		if a.any {
+			return True
+		}
+		if a.sinceEntry {
+			// only locations that existed at function entry are constrained
+			clk = g.entry.Clk
+			continue
+		}
+		rest = append(rest, a)
+	}
+	allow = rest
 	mkv := func(hint string) *Term {
 		if skolem {
 			return g.fresh(hint, SInt)
